@@ -7,6 +7,10 @@ VERIF = os.path.dirname(os.path.dirname(os.path.abspath(__file__)))
 CHECKS = {}
 
 
+# properties whose structured strategy also runs under libFuzzer in the thorough tier (vlib/fuzz.py, guided mode)
+GUIDED_IDS = {'C01', 'C02', 'C03', 'C04', 'C05', 'C09', 'C10', 'C12', 'C15'}
+
+
 def reg(pid, technique, text, note, ref=None):
     CHECKS[pid] = (technique, text, note, ref or 'DESIGN.md section 3, ' + pid)
 
@@ -147,6 +151,8 @@ def main():
                 na.append({'property_id': pid, 'reason': PENDING_REASON})
             continue
         tech, text, note, ref = CHECKS[pid]
+        if pid in GUIDED_IDS:
+            tech += '; thorough tier: the same Hypothesis strategy driven by libFuzzer coverage feedback (atheris, guided mode)'
         checks.append({
             'property_id': pid,
             'quick_cmd': './check %s quick' % pid,
@@ -173,7 +179,7 @@ def main():
             'name': 'pbt-runner', 'path': 'run.py',
             'serves_properties': [c['property_id'] for c in checks],
             'kind_free_text': 'property-based testing: exhaustive small-scope enumeration, Hypothesis strategies and stateful machines, '
-                              'mutation fuzzing; explicit oracles (reference models, ground-truth generators, round trips, metamorphic '
+                              'mutation fuzzing, coverage-guided fuzzing (atheris/libFuzzer on raw bytes and on Hypothesis choice sequences); explicit oracles (reference models, ground-truth generators, round trips, metamorphic '
                               'relations); collect-bucket-shrink-replay failure handling',
         }],
         'checks': checks,
